@@ -4,7 +4,7 @@ from sa import cfg
 from sa.cfg import BranchFacts
 from sa.flow import arg_nodes, mentions
 
-UNITS = ["lib/BuildSystem/BuildSystem.cpp"]
+UNITS = ["lib/BuildSystem/BuildSystem.cpp", "lib/BuildSystem/BuildNode.cpp"]
 THOROUGH_ALL_UNITS = False
 EXPLANATION = (
     "Content signature: the directory-listing value, every child's node value and every child's sub-tree signature (or one fixed "
@@ -102,6 +102,51 @@ def run(ctx):
         r.check(len(reqs) == 2 and any("makeDirectoryContents(path)" in t for t in reqs) and
                 any("makeFilteredDirectoryContents(path, filters)" in t for t in reqs), "%s|listing-requested-with-filters" % task, "",
                 "the directory listing is not requested with the task's filters", s0)
+
+    # ------------------------------------------------------------------ how a node becomes a directory-tree / structure input
+    rt = rep.rule("R-NODE-TYPE-TABLE", "every spelling the build file accepts for a node's `type` selects the node type of that name (kebab-case of the "
+                                       "enumerator): a node declared `type: directory` is a directory-tree input; the deprecated booleans select their own "
+                                       "type; a name ending in '/' is a directory by default", floor=5)
+    import re as _re
+    ca = [f for f in prog.fns("BuildNode::configureAttribute") if f.params and len(f.params) == 3 and "StringRef" in f.param_type(2) and "ArrayRef" not in f.param_type(2)]
+    if len(ca) != 1:
+        raise AnalysisBroken("BuildNode::configureAttribute(StringRef) not found uniquely (%d)" % len(ca))
+    ca = ca[0]
+    bfa = BranchFacts(ca, kill="assign")
+    enumerators = [e_["n"] for e_ in prog.enum("BuildNode::NodeType")["enumerators"]] if any(n.endswith("NodeType") for n in prog.enums) else []
+
+    def kebab(nm):
+        return _re.sub(r"(?<!^)([A-Z])", r"-\1", nm).lower()
+    stores = [n for n in ca.nodes if n.get("k") == "bin" and n["op"] == "=" and expr_plain(n.child("l")) in ("type", "this->type")]
+    seen_type = {}
+
+    def guard_strings(st_):
+        """(name literal, value literal) of the `if (name == "...")` / `if (value == "...")` arms the store sits in"""
+        nm = val = None
+        for a in ca.ancestors(st_):
+            if a.get("k") != "if" or not any(x is st_ for x in a.child("then").walk()):
+                continue
+            c = a.child("c")
+            lits = [x.get("v") for x in c.walk() if x.get("k") == "str"]
+            refs = [x.get("n") for x in c.walk() if x.get("k") == "ref"]
+            if len(lits) == 1 and "name" in refs and nm is None:
+                nm = lits[0]
+            elif len(lits) == 1 and "value" in refs and val is None:
+                val = lits[0]
+        return nm, val
+    for st_ in stores:
+        en = [x.get("n") for x in st_.child("r").walk() if x.get("k") == "ref" and x.get("dk") == "enumconst"]
+        en = en[0] if en else "?"
+        nm, val = guard_strings(st_)
+        if nm == "type" and val is not None:
+            seen_type[val] = en
+            rt.check(kebab(en) == val, "configureAttribute|type: %s" % val, "-> %s" % en, "`type: %s` selects NodeType::%s" % (val, en), ca, st_)
+        elif nm in ("is-directory", "is-directory-structure", "is-virtual") and val == "true":
+            want = {"is-directory": "Directory", "is-directory-structure": "DirectoryStructure", "is-virtual": "Virtual"}[nm]
+            rt.check(en == want, "configureAttribute|%s: true" % nm, "-> %s" % en, "`%s: true` selects NodeType::%s" % (nm, en), ca, st_)
+    if enumerators:
+        missing = [e_ for e_ in enumerators if e_ not in seen_type.values()]
+        rt.check(not missing, "configureAttribute|every-type-has-a-spelling", "%s" % sorted(seen_type), "no `type:` spelling selects %s" % missing, ca)
 
     # ------------------------------------------------------------------ a listing is looked at again in every build
     rr = rep.rule("R-LISTING-RESCAN", "every rule whose task enumerates a directory is re-evaluated in each build: either its validity callback lists the "
